@@ -7,7 +7,10 @@
    run_bmap [] ops : the same sequence on the ordered map over byte-string keys of Trie/Spec.v
        (get, put, del, next_key = smallest strictly greater key, keys_with_prefix byte-wise and
        ascending, clear_prefix, clear_prefix_limit = remove the [limit] smallest matching keys and
-       report (removed, none remain)).
+       report (removed, none remain)); C02_spec_meaning proves that the definitions compute that.
+   run_gomap [] ops : the ordered map with the matching rule the Go code really uses for the three
+       prefix operations (byte prefix minus one trailing zero nibble; limit 0 answers "not all
+       deleted"): what the code computes also inside the classes prefix-trim and clear-limit-zero.
 
    FULL STATEMENT:  forall ops, run_trie repaired None ops = run_bmap [] ops.
    It is refuted in five input classes, each pinned down by an existing unit test of
@@ -15,9 +18,12 @@
    clear-limit-zero, clear-limit-order): C02_*_refuted below.  C02_refines_partial is the full
    statement for every sequence in which no operation meets one of the five guards
    (guard_of, evaluated on the state before the operation); every limit, including 0 and
-   limits above the number of matching keys, is covered. *)
+   limits above the number of matching keys, is covered.  C02_guards_exact: inside every guard
+   except clear-limit-order the observation provably differs, so the guards exclude nothing but
+   failing inputs there (for clear-limit-order exactness is argued in docs/audit/aud-trie.md and
+   measured by the driver tag guard-agree-SLUG). *)
 From Common Require Import Bytes Outcome.
-From Trie Require Import Nibbles Node Encode Model Spec.
+From Trie Require Import Nibbles Node Encode Model Spec GoSpec SpecProofs.
 From C02 Require Import Model Guards Proofs.
 
 Theorem C02_refines_partial : forall ops,
@@ -31,6 +37,48 @@ Theorem C02_step : forall t m o, Trie.MapProofs.Rep t m -> guard_of m t o = 0%na
   Trie.MapProofs.Rep (fst (trie_step repaired t o)) (fst (bm_step m o)).
 Proof. exact step_correct. Qed.
 Print Assumptions C02_step.
+
+(* the hypothesis of C02_step is met by every state a guard-free sequence passes through *)
+Theorem C02_states : forall ops, guards_free [] None ops = true ->
+  forall i, Trie.MapProofs.Rep (trie_before repaired None ops i) (bmap_before [] ops i).
+Proof. intros ops G. exact (run_states ops None [] Trie.MapProofs.Rep_empty G). Qed.
+Print Assumptions C02_states.
+
+(* the code IS an ordered map, with the prefix rule of the Go code: no prefix-trim and no
+   clear-limit-zero guard is needed for this statement *)
+Theorem C02_refines_go : forall ops,
+  guards_go_free [] None ops = true -> run_trie repaired None ops = run_gomap [] ops.
+Proof. exact refines_go. Qed.
+Print Assumptions C02_refines_go.
+
+(* what the specification operations compute, in the words of the property *)
+Theorem C02_spec_meaning : forall m, bm_sorted m = true ->
+  (* next-key returns the smallest strictly greater key, and none only if there is none *)
+  (forall k k', bm_next_key m k = Some k' ->
+     In k' (bm_keys m) /\ bytes_lt k k' /\
+     forall k'', In k'' (bm_keys m) -> bytes_lt k k'' -> k'' = k' \/ bytes_lt k' k'') /\
+  (forall k, bm_next_key m k = None -> forall k'', In k'' (bm_keys m) -> ~ bytes_lt k k'') /\
+  (* prefixes match byte-wise; the listing keeps the (ascending) order of the map *)
+  (forall p, bm_keys_with_prefix m p = filter (bytes_prefix p) (bm_keys m)) /\
+  (forall p k v, In (k, v) (bm_clear_prefix m p) <-> In (k, v) m /\ bytes_prefix p k = false) /\
+  (* a limited clear leaves the other entries alone, removes the [limit] smallest matching keys,
+     reports how many it removed and whether none remain *)
+  (forall p limit,
+     let '(m', n, all) := bm_clear_prefix_limit m p limit in
+     let M := filter (Trie.LimitProofs.bmatch p) m in
+     filter (fun e => negb (Trie.LimitProofs.bmatch p e)) m' = filter (fun e => negb (Trie.LimitProofs.bmatch p e)) m /\
+     filter (Trie.LimitProofs.bmatch p) m' = skipn (N.to_nat limit) M /\
+     n = N.of_nat (Nat.min (N.to_nat limit) (length M)) /\
+     (all = true <-> filter (Trie.LimitProofs.bmatch p) m' = [])).
+Proof.
+  intros m S. split; [|split; [|split; [|split]]].
+  - intros k k'. exact (bm_next_key_some m k k' S).
+  - intros k. exact (bm_next_key_none m k).
+  - intros p. exact (bm_keys_with_prefix_order m p).
+  - intros p k v. exact (bm_clear_prefix_in m p k v).
+  - intros p limit. exact (bm_clear_prefix_limit_meaning m p limit).
+Qed.
+Print Assumptions C02_spec_meaning.
 
 (* the five known-finding classes: the full statement fails inside each guard *)
 Theorem C02_prefix_refuted :
@@ -51,21 +99,39 @@ Theorem C02_limit_refuted :
 Proof. split; [exists w_limit_zero; exact limit_zero_refuted|exists w_limit_order; exact limit_order_refuted]. Qed.
 Print Assumptions C02_limit_refuted.
 
-(* the guards are not wider than the failing classes: inside the trim guard the key listing differs
-   from the ordered map's, inside the get guard Get differs, inside the limit-zero guard allDeleted differs *)
+(* the guards are not wider than the failing classes.  From any state in which the trie represents
+   the map: inside the trim guard the key listing and the entries after ClearPrefix differ from the
+   map's; inside the narrowed trim guard of the limited clear (outside the order guard) the
+   observation differs; inside the get guard Get differs; inside the delete guard an entry is lost
+   although the map keeps it; inside the limit-zero guard allDeleted differs. *)
 Theorem C02_guards_exact : forall t m,
   Trie.MapProofs.Rep t m ->
   (forall p, guard_trim m p = true -> trie_keys_with_prefix t p <> Ok (bm_keys_with_prefix m p)) /\
+  (forall p, guard_trim m p = true -> trie_entries (trie_clear_prefix t p) <> bm_listing (bm_clear_prefix m p)) /\
+  (forall p l, l <> 0%N -> guard_limit_order_go m p l = false -> guard_trim_limit m p l = true ->
+     snd (trie_step repaired t (OpClearLimit p l)) <> snd (bm_step m (OpClearLimit p l))) /\
   (forall k, guard_get_exhausted t k = true -> trie_get t k <> bm_get m k) /\
+  (forall k, guard_delete_exhausted t k = true ->
+     length (trie_entries (trie_delete t k)) < length (bm_listing (bm_del m k))) /\
   (forall p limit, guard_limit_zero m p limit = true ->
      snd (trie_clear_prefix_limit t p limit) <> snd (bm_clear_prefix_limit m p limit)).
 Proof.
-  intros t m R. split; [|split].
+  intros t m R. split; [|split; [|split; [|split; [|split]]]].
   - intros p G. exact (guard_trim_exact_keys t m p R G).
+  - intros p G. exact (guard_trim_exact_clear t m p R G).
+  - intros p l Z Go Gt. exact (guard_trim_limit_exact t m p l R Z Go Gt).
   - intros k G. exact (guard_get_exact t m k R G).
+  - intros k G. exact (guard_delete_exact t m k R G).
   - intros p limit G. exact (guard_limit_zero_exact t m p limit G).
 Qed.
 Print Assumptions C02_guards_exact.
+
+(* the driver evaluates the guards of a limited clear with the limit clamped to (number of stored
+   keys + 1): that is the same guard *)
+Theorem C02_guard_clamp : forall m t p l,
+  guard_of m t (OpClearLimit p l) = guard_of m t (OpClearLimit p (N.min l (N.of_nat (S (length m))))).
+Proof. exact guard_of_clamp. Qed.
+Print Assumptions C02_guard_clamp.
 
 (* the pinned tree violated the statement outside every guard (fixed by fixes/C02-get-diverging-key,
    C02-delete-diverging-key, C02-keys-prefix-descent, C02-get-exhausted-key-nested,
@@ -89,3 +155,26 @@ Example C02_nonvacuous :
   nth 9 (run_bmap [] ops) OutPanic = OutKeys [b [16]; b [16; 1]; b [16; 2]]%N /\
   nth 14 (run_bmap [] ops) OutPanic = OutLimit 2 true [([], Some (b [5])); (b [32], Some (b [4]))]%N.
 Proof. vm_compute. repeat split; reflexivity. Qed.
+
+(* the narrowed guard of the limited clear: with 0x1001, 0x1002, 0x1f02 stored the trimmed prefix
+   of 0x10 also matches 0x1f02 (guard_trim holds), yet ClearPrefixLimit(0x10, 1) and
+   ClearPrefixLimit(0x10, 0) are inside the theorem (guard 0) and give the map's answer, while
+   ClearPrefixLimit(0x10, 2) (allDeleted differs) and (0x10, 3) (0x1f02 is removed) are not *)
+Example C02_nonvacuous_trim_limit :
+  let pre := [OpPut (b [16; 1]) (b [1]); OpPut (b [16; 2]) (b [2]); OpPut (b [31; 2]) (b [3])]%N in
+  let m := fst (fold_left (fun s o => bm_step (fst s) o) pre ([], OutPanic)) in
+  guard_trim m (b [16])%N = true /\
+  guards_free [] None (pre ++ [OpClearLimit (b [16]) 1; OpClearLimit (b [16]) 0])%N = true /\
+  guards_free [] None (pre ++ [OpClearLimit (b [16]) 2])%N = false /\
+  guards_free [] None (pre ++ [OpClearLimit (b [16]) 3])%N = false /\
+  run_trie repaired None (pre ++ [OpClearLimit (b [16]) 2])%N <> run_bmap [] (pre ++ [OpClearLimit (b [16]) 2])%N /\
+  run_trie repaired None (pre ++ [OpClearLimit (b [16]) 3])%N <> run_bmap [] (pre ++ [OpClearLimit (b [16]) 3])%N.
+Proof. vm_compute. repeat split; try reflexivity; discriminate. Qed.
+
+(* C02_refines_go is not vacuous inside the finding classes: the prefix-trim and limit-zero
+   witnesses are free of its guards, and there the Go rule differs from the byte-wise rule *)
+Example C02_nonvacuous_go :
+  guards_go_free [] None w_trim = true /\ run_gomap [] w_trim <> run_bmap [] w_trim /\
+  guards_go_free [] None w_trim_clear = true /\ guards_go_free [] None w_limit_zero = true /\
+  guards_go_free [] None w_limit_order = false.
+Proof. vm_compute. repeat split; try reflexivity; discriminate. Qed.
